@@ -246,6 +246,9 @@ def _search_dirs(dirs: List[Path], search_glob: str) -> List[Path]:
             # The glob also matches directories (e.g. `**/*` when no suffix is given), but we search for files.
             if not path.is_file():
                 continue
+            # Component directories may be nested in one another; each file is reported once.
+            if path in matched_files:
+                continue
 
             matched_files.append(path)
 
